@@ -1,7 +1,8 @@
 #!/bin/bash
 # run every check's thorough tier sequentially; summary lines to stdout
 cd "$(dirname "$0")/.."
-for p in C05 C20 C15 C12 C19 C18 C09 C06 C04 C03 C08 C11 C14 C16 C13 C10 C07 C02 C17 C01; do
+LIST=${@:-C05 C20 C15 C12 C19 C18 C09 C06 C04 C03 C08 C11 C14 C16 C13 C10 C07 C02 C17 C01}
+for p in $LIST; do
   s=$(date +%s)
   ./check $p --tier thorough > out_thorough_$p.log 2>&1
   rc=$?
